@@ -125,6 +125,24 @@ def props(pid):
     return ok, thms, assum, log
 
 
+def coqchk(pid):
+    """re-check Props/<pid>.vo and everything it depends on with the independent checker; returns
+    (ok, axioms, log). The context summary must report no type-in-type, no unsafe fixpoints, no assumed positivity."""
+    try:
+        r = subprocess.run(["coqchk", "-silent", "-o", "-Q", ".", "Rex", f"Rex.Props.{pid}"], cwd=COQ,
+                           capture_output=True, text=True, timeout=1800)
+        log = r.stdout + r.stderr
+    except subprocess.TimeoutExpired:
+        return False, [], "coqchk timed out"
+    ok = r.returncode == 0
+    m = re.search(r"\* Axioms:(.*?)\n\s*\n?\* Constants", log, re.S)
+    axioms = [] if not m or "<none>" in m.group(1) else [x.strip() for x in m.group(1).strip().splitlines() if x.strip()]
+    for key in ("relying on type-in-type", "relying on unsafe (co)fixpoints", "positivity is assumed"):
+        mm = re.search(re.escape(key) + r":\s*(.*)", log)
+        if not mm or "<none>" not in mm.group(1): ok = False
+    return ok, axioms, log
+
+
 ALLOWED_AXIOMS = {
     "ClassicalDedekindReals.sig_forall_dec", "ClassicalDedekindReals.sig_not_dec",
     "FunctionalExtensionality.functional_extensionality_dep", "Classical_Prop.classic",
@@ -315,6 +333,14 @@ class Check:
             for a in ax:
                 if a not in ALLOWED_AXIOMS:
                     self.broke(f"axiom:{a} used by {t}", "not in the declared trusted base")
+        if ok and self.tier == "thorough" and os.environ.get("VERIF_NO_COQCHK") != "1":
+            cok, axioms, clog = coqchk(self.pid)
+            self.obligations.append((f"coqchk:Rex.Props.{self.pid}", cok, "" if cok else clog[-1500:]))
+            self.extra["coqchk_axioms"] = axioms
+            if not cok: self.broke(f"coqchk:Rex.Props.{self.pid}", clog[-1500:])
+            for a in axioms:
+                if not any(a.endswith(x) for x in ALLOWED_AXIOMS):
+                    self.broke(f"axiom:{a} (coqchk)", "not in the declared trusted base")
 
     # --- finish
     def finish(self):
